@@ -48,6 +48,8 @@ impl SubscriptionTrie {
       };
       current_node_arc = next_node_arc;
     }
+    #[cfg(rzmq_verif)]
+    crate::verif::sched::point("trie.sub.walked");
 
     let final_node_r = current_node_arc.read();
     final_node_r.count.fetch_add(1, Ordering::Relaxed);
@@ -78,6 +80,8 @@ impl SubscriptionTrie {
 
     let final_node_r = current_node_arc.read();
     let old_count = final_node_r.count.fetch_sub(1, Ordering::Relaxed);
+    #[cfg(rzmq_verif)]
+    crate::verif::sched::point("trie.unsub.decremented");
 
     if old_count > 0 {
       tracing::debug!(topic = ?String::from_utf8_lossy(topic), new_count = old_count - 1, "Unsubscribed");
@@ -113,6 +117,8 @@ impl SubscriptionTrie {
       if matched_prefix {
         return true;
       }
+      #[cfg(rzmq_verif)]
+      crate::verif::sched::point("trie.match.step");
 
       match next_node_option {
         Some(next_node_arc) => {
